@@ -100,7 +100,13 @@ func (c *queueClass_[V]) MakeFromArray(values []V) QueueLike[V] {
 }
 
 func (c *queueClass_[V]) MakeFromSequence(values Sequential[V]) QueueLike[V] {
-	var queue = c.Make()
+	// The queue must be able to hold all of the initial values, otherwise this
+	// constructor would block on its own capacity.
+	var capacity = c.defaultCapacity_
+	if uint(values.GetSize()) > capacity {
+		capacity = uint(values.GetSize())
+	}
+	var queue = c.MakeWithCapacity(capacity)
 	var iterator = values.GetIterator()
 	for iterator.HasNext() {
 		var value = iterator.GetNext()
